@@ -13,7 +13,7 @@ STORY_IDS = ['A', 'B', 'C', 'D', 'E', 'F', 'G', 'H']
 ITEM_IDS = ['i1', 'i2', 'i3', 'i4', 'i5', 'i6']
 UNKNOWN = 'ZZ'
 
-RO_LAYOUTS = ['plain', 'between', 'trailing', 'nometa', 'bare', 'blankids', 'noids']
+RO_LAYOUTS = ['plain', 'between', 'trailing', 'nometa', 'bare', 'blankids', 'noids', 'decoys']
 PARA_LAYOUTS = ['none', 'between', 'leading', 'trailing']
 TIMINGS = ['all', 'none', 'mixed']
 
@@ -66,12 +66,36 @@ def make_ro(story_ids, layout='plain', items=None, para_layout='none', timing='n
             kids.append(story(None, body=[item(ITEM_IDS[0], slug='in-blank'), item(None, slug='blank-item')], slug='Blank'))
             if layout == 'noids':
                 kids.append(story(ABSENT, body=[item(ITEM_IDS[0], slug='in-noid'), item(ABSENT, slug='noid-item')], slug='NoId'))
+    if layout == 'decoys':
+        add_decoys(kids)
     if layout == 'bare':
         kids += ro_head(ro_id)
     if layout == 'trailing':
         kids.append(E('mosExternalMetadata', E('mosSchema', text='http://schema/ro'),
                       E('mosPayload', E('Owner', text='x'))))
     return ro_create(kids, message_id=message_id)
+
+
+def decoy_block():
+    """elements with the names the library searches for (storyID, itemID, story, item, p, roSlug, mosPayload ...),
+    nested where no lookup should ever find them: inside the free-form payload of an item.  Their texts are the IDs
+    that generated messages carry (N1, N2, n1, n2), reference as unknown (ZZ) or find elsewhere (A, i1)."""
+    return E('mosExternalMetadata', E('mosSchema', text='http://schema/decoy'),
+             E('mosPayload',
+               E('linked', E('storyID', text='N1'), E('storyID', text=UNKNOWN), E('itemID', text='n1'), E('itemID', text=UNKNOWN)),
+               E('story', E('storyID', text='N2'), E('storySlug', text='decoy story'), E('item', E('itemID', text='n2'), E('itemSlug', text='decoy item')), E('p', text='decoy paragraph')),
+               E('item', E('itemID', text='i1'), E('itemSlug', text='nested item')),
+               E('playlist', E('item', E('itemID', text='GFX1')), E('item', E('itemID', text='n1'))),
+               E('roSlug', text='decoy slug'), E('StoryDuration', text='999'), E('p', text='(decoy note)')))
+
+
+def add_decoys(kids):
+    """put a decoy block into the first item of the first story (or into the story when it has no item)"""
+    for k in kids:
+        if k.tag == 'story':
+            host = k.find('item')
+            (host if host is not None else k).append(decoy_block())
+            return
 
 
 def new_story(sid, n_items=1):
